@@ -3,6 +3,7 @@ package server
 import (
 	"context"
 	"errors"
+	"sync"
 
 	"github.com/feichai0017/NoKV/manifest"
 	"github.com/feichai0017/NoKV/pb"
@@ -21,6 +22,10 @@ type Service struct {
 	ids     *core.IDAllocator
 	tso     *tso.Allocator
 	storage pdstorage.Store
+
+	// persistMu serialises "read both counters, write the checkpoint" so that
+	// checkpoints reach the disk in the order in which the counters were read.
+	persistMu sync.Mutex
 }
 
 // NewService constructs a PD-lite service.
@@ -188,7 +193,13 @@ func (s *Service) persistAllocatorState() error {
 	if s == nil || s.storage == nil {
 		return nil
 	}
-	return s.storage.SaveAllocatorState(s.ids.Current(), s.tso.Current())
+	// Without the mutex a request that read older counters can overwrite a newer
+	// checkpoint; a restart would then hand out values that were already returned.
+	s.persistMu.Lock()
+	defer s.persistMu.Unlock()
+	idCurrent := s.ids.Current()
+	tsCurrent := s.tso.Current()
+	return s.storage.SaveAllocatorState(idCurrent, tsCurrent)
 }
 
 func pbToManifestRegion(meta *pb.RegionMeta) manifest.RegionMeta {
